@@ -23,7 +23,7 @@ theorem gen_laplaceSamplerScale_eq (e d s : ℝ)  : gen_laplaceSamplerScale e d 
   simp only [laplaceScale, transc_log]
 
 /-- `laplace.py:Laplace.variance` -/
-noncomputable def gen_laplaceVariance (e d s : ℝ) : ℝ := ((2 : ℝ) * ((s / (e - (Real.log (1 + (-d))))) ^ 2))
+noncomputable def gen_laplaceVariance (e d s : ℝ) : ℝ := ((2 : ℝ) * ((s / (e - (Real.log ((1 : ℝ) - d)))) ^ 2))
 theorem gen_laplaceVariance_eq (e d s : ℝ)  : gen_laplaceVariance e d s = laplaceVariance e d s := by
   unfold gen_laplaceVariance
   simp only [laplaceVariance, Cont.sq, transc_log, transc_pow, Real.rpow_two]
